@@ -126,7 +126,9 @@ def _oracle(args):
 # ---- (2) slots ----
 E = absdoc.E
 ATOMS = ['*', '**', '/', '//', '_', '__', '{', '{{', '}', '}}', '\\', '\\\\', ' ', 'a', 'P', 'ITEM', 'PART', 'SEC 1', '-', ' - ', '.', '|', '^', '>',
-         'FOOTNOTE 1', 'IMG', '[', ']', '(', '1.', ' ', '　', 'TC', 'FROM', '{{^', '{{>', '}}}', 'é', '\U0001F600']
+         'FOOTNOTE 1', 'IMG', '[', ']', '(', '1.', ' ', '　', 'TC', 'FROM', '{{^', '{{>', '}}}', 'é', '\U0001F600',
+         # separators that are not the grammar's line break: Unicode line / paragraph separator
+         '\u2028', '\u2029']
 SLOTS = ['p', 'p-b', 'p-i', 'p-u', 'p-sup', 'p-sub', 'p-ref', 'p-term', 'p-remark', 'p-tail', 'p-before', 'p-b-b', 'heading', 'subheading', 'crossheading',
          'num', 'item', 'li', 'intro', 'cell', 'from', 'att-heading']
 
@@ -381,6 +383,10 @@ def search(ctx, budget):
     if ctx.quick and budget == 1:
         strs = [s for s in strs if ctx.rng.random() < 0.25 or len(s) <= 2]
     sj = [(k, s) for k in SLOTS for s in strs]
+    # characters that split a line for str.splitlines() but not for the grammar (line / paragraph separator, NEL, FS/GS/RS, VT, FF are not
+    # in XML 1.0 or are: the three that are), in the middle of a text and followed by what would be markup at the start of a line
+    sj += [(k, 'as set out in' + sep + kw) for k in SLOTS for sep in ('\u2028', '\u2029', '\u0085')
+           for kw in ('PART 1 - of the Act', 'ITEMS', 'CROSSHEADING of this part', 'P.x y', 'SEC', 'plain')]
     for j, r in zip(sj, impl.pmap(_slot, sj, chunk=64)):
         ctx.evaluations += 1; ctx.count('slot_' + r[0])
         if r[0] == 'bad':
